@@ -25,6 +25,9 @@ type ngapCase struct {
 	Val   json.RawMessage `json:"value"`
 	Ext   int             `json:"ext_outside_root,omitempty"` // values generated above the root of an extensible constraint
 	Dirty int             `json:"dirty_bitstrings,omitempty"` // BIT STRINGs whose unused trailing bits are set
+	// Hostile: C04 only — how many truncated / damaged variants of the encoding the decoder is given before the
+	// conformant one (it must refuse or accept them; what matters is the conformant decode afterwards)
+	Hostile int `json:"hostile_before,omitempty"`
 	live  interface{}
 }
 
@@ -92,6 +95,11 @@ func genNgapCase(t *rapid.T, allowFragment bool) ngapCase {
 		o.Budget = 60
 	case 5:
 		o.Budget = 2500
+	case 6:
+		// several large information elements in one PDU (each a kilobyte or more): large lists next to long strings
+		o.BigLists = true
+		o.BigString = 3000
+		o.Budget = 9000
 	}
 	if allowFragment {
 		o.Force = int64(rapid.SampledFrom([]int{16384, 16385, 32767, 32768, 49152, 65535, 65536, 65537, 81920}).Draw(t, "frag"))
@@ -115,6 +123,9 @@ func genNgapCase(t *rapid.T, allowFragment bool) ngapCase {
 		}
 		c.Ext = g.ExtOutside
 		c.Dirty = g.DirtyBits
+		if rapid.IntRange(0, 2).Draw(t, "hostile") == 0 {
+			c.Hostile = rapid.IntRange(1, 4).Draw(t, "hostile_n")
+		}
 		// fragmentation sweep: retry (with fresh draws) until some string got the target length
 		if !allowFragment || g.Forced() || try >= 7 {
 			return c
